@@ -5,6 +5,9 @@ out = []
 for d in sorted(glob.glob('/tmp/seeded_out/C*/[a-z]')):
     pid = d.split('/')[-2]; x = d.split('/')[-1]
     ev = os.path.join(d, 'eval.json')
+    if not os.path.exists(ev):
+        # evaluation files are kept out of the sub-agents' sight while later waves are being written
+        ev = f'/tmp/seeded_evals/{pid}/{x}/eval.json'
     if not os.path.exists(ev) or not os.path.exists(os.path.join(d, 'patch.diff')):
         continue
     j = json.load(open(ev))
@@ -31,6 +34,10 @@ for d in sorted(glob.glob('/tmp/seeded_out/C*/[a-z]')):
         'caught_by_own_check_quick': j.get('caught_by_own_check_quick'),
         'caught_by_own_check_thorough': j.get('caught_by_own_check_thorough'),
     }
+    before = os.path.join(os.path.dirname(ev), 'eval.before.json')
+    if os.path.exists(before):
+        b = json.load(open(before))
+        meta['first_evaluation_before_strengthening'] = {'caught_by_own_check_quick': b.get('caught_by_own_check_quick'), 'caught_by_own_check_thorough': b.get('caught_by_own_check_thorough'), 'caught_by': sorted(k for k, v in b.get('checks', {}).items() if v.get('exit') == 1)}
     json.dump(meta, open(os.path.join(dst, 'meta.json'), 'w'), indent=1)
     out.append((pid, x, sorted(caught.keys())))
 for o in out: print(o)
